@@ -52,9 +52,13 @@ type kase struct {
 	Note   string            `json:",omitempty"`
 	// expectations of the family, checked besides survival
 	WantTagged string `json:",omitempty"` // this tag must get a tagged completion (the connection is expected to stay usable)
+	Bytes      int    `json:",omitempty"` // input size when the input itself is not stored (nesting families)
 }
 
 func (k *kase) size() int {
+	if k.Bytes > 0 {
+		return k.Bytes
+	}
 	if k.Stream != nil {
 		return len(srvframe.Wire(k.Stream))
 	}
@@ -608,7 +612,7 @@ func runNesting(jobs []nestJob) {
 			if len(first) > 400 {
 				first = first[:400]
 			}
-			k := &kase{Family: "nesting", Raw: &srvframe.RawCase{Caps: srvframe.CapsRev2, Setup: setupFor(srvframe.StSelected), Name: fmt.Sprintf("%s n=%d", j.Family, j.N), Segs: []string{fmt.Sprintf("<%s with n=%d, %d bytes>", j.Family, j.N, len(nestLine(j.Family, j.N)))}, Fault: "eof", FailWriteAt: -1}, Note: fmt.Sprintf("%s:%d", j.Family, j.N)}
+			k := &kase{Family: "nesting", Raw: &srvframe.RawCase{Caps: srvframe.CapsRev2, Setup: setupFor(srvframe.StSelected), Name: fmt.Sprintf("%s n=%d", j.Family, j.N), Segs: []string{fmt.Sprintf("<%s with n=%d, %d bytes>", j.Family, j.N, len(nestLine(j.Family, j.N)))}, Fault: "eof", FailWriteAt: -1}, Note: fmt.Sprintf("%s:%d", j.Family, j.N), Bytes: len(nestLine(j.Family, j.N))}
 			cause := j.Family
 			if j.Family == "search-not-chain" || j.Family == "search-or-chain" {
 				cause = "search-key-recursion" // one defect: readSearchKey recursion is not depth-limited
@@ -616,6 +620,13 @@ func runNesting(jobs []nestJob) {
 			record("server-process-dies:"+cause, fmt.Sprintf("the whole server process died (%v) while parsing %s with n=%d; stderr begins: %s", werr, j.Family, j.N, first), k, int64(j.N), []string{clip(tail, 1500)})
 			run.AddEvals(1)
 			idx = open + 1
+			// a deeper input of the same family would only die again (and cost another 1 GB stack)
+			for idx < len(jobs) && jobs[idx].Family == j.Family && jobs[idx].N > j.N {
+				nestMu.Lock()
+				nestOutcome[fmt.Sprintf("%s n=%d", jobs[idx].Family, jobs[idx].N)] = fmt.Sprintf("not run: the process already dies at n=%d", j.N)
+				nestMu.Unlock()
+				idx++
+			}
 			continue
 		}
 		if idx < len(jobs) {
@@ -629,7 +640,7 @@ var nestOutcome = map[string]string{}
 var nestMu sync.Mutex
 
 func judgeNest(j nestJob, r nestResult) {
-	k := &kase{Family: "nesting", Raw: &srvframe.RawCase{Caps: srvframe.CapsRev2, Setup: setupFor(srvframe.StSelected), Name: fmt.Sprintf("%s n=%d", j.Family, j.N), Segs: []string{fmt.Sprintf("<%s with n=%d, %d bytes>", j.Family, j.N, r.InputBytes)}, Fault: "eof", FailWriteAt: -1}, Note: fmt.Sprintf("%s:%d", j.Family, j.N)}
+	k := &kase{Family: "nesting", Raw: &srvframe.RawCase{Caps: srvframe.CapsRev2, Setup: setupFor(srvframe.StSelected), Name: fmt.Sprintf("%s n=%d", j.Family, j.N), Segs: []string{fmt.Sprintf("<%s with n=%d, %d bytes>", j.Family, j.N, r.InputBytes)}, Fault: "eof", FailWriteAt: -1}, Note: fmt.Sprintf("%s:%d", j.Family, j.N), Bytes: r.InputBytes}
 	t := []string{fmt.Sprintf("%+v", r)}
 	nestMu.Lock()
 	nestOutcome[fmt.Sprintf("%s n=%d", j.Family, j.N)] = fmt.Sprintf("%s (backend calls %d)", r.Status, r.Backend)
